@@ -4,7 +4,12 @@
         true exactly when bits < 8 * ENCODED_SIZE and 2^bits <= p
   FieldElementWithInteger::decode_bitvector (abstract field, any length): Err(BitVectorTooLong) exactly when the length is
         not a valid bit length, otherwise the inner product sum_i input[i] * 2^i (mod p) - a LINEAR function of the
-        input, hence applicable to secret shares"""
+        input, hence applicable to secret shares
+  decode_range_checked_int (abstract field, any length): Ok exactly when all-but-the-last elements form a valid bit length;
+        value == sum_i input[i]*2^i over all but the last element + last * last_weight  (linear)
+  Flp::truncate_call_check, Sum::truncate, SumVec::truncate (extracted; `input.chunks(bits)` -> index loop over
+        chunks_count/chunk_at shims, E4i): Ok exactly when the length is input_len() and every chunk decodes; output coordinate j
+        is the range-checked value of chunk j - every chunk, in order, linear chunk by chunk"""
 from fe_common import FE_PRELUDE
 from fp_common import fp_consts
 from vunit import VUnit
@@ -83,4 +88,99 @@ invariant
     lemma_pow2_unfold((k_ + 1) as nat);
     assert((pow2(k_ as nat) as int) * 2 == pow2((k_ + 1) as nat) as int);
 ''')])
+    # ---- decode_range_checked_int and the truncate functions built on it (linear: apply to secret shares) --------------------
+    T = 'src/flp/types.rs'
+    u.raw('''
+pub enum FlpError { Truncate(String), Field(FieldError), Other }
+#[verifier::external_body]
+fn fmt_opaque() -> String { String::new() }
+// input.split_last()  [std semantics on the E3c Vec view]
+#[verifier::external_body]
+fn vec_split_last(input: &Vec<Fe>) -> (r: Option<(Fe, Vec<Fe>)>)
+    ensures match r { None => input@.len() == 0, Some((last, rest)) => input@.len() > 0 && last == input@[input@.len() - 1] && rest@ == input@.drop_last() }
+{ unimplemented!() }
+// input.chunks(n): number of chunks and the k-th chunk  [std semantics; chunks(0) panics]
+#[verifier::external_body]
+fn chunks_count(len: usize, n: usize) -> (r: usize) requires n > 0 ensures r as int == (len as int + n as int - 1) / (n as int) { unimplemented!() }
+#[verifier::external_body]
+fn chunk_at(input: &Vec<Fe>, n: usize, k: usize) -> (r: Vec<Fe>)
+    requires n > 0, (k as int) * (n as int) < input@.len(),
+    ensures r@ == input@.subrange((k as int) * (n as int), if (k as int + 1) * (n as int) <= input@.len() { (k as int + 1) * (n as int) } else { input@.len() as int })
+{ unimplemented!() }
+proof fn lemma_bsum_prefix(s: Seq<Fe>, t: Seq<Fe>, n: int)
+    requires 0 <= n <= s.len(), n <= t.len(), forall|i: int| 0 <= i < n ==> s[i] == t[i]
+    ensures bsum(s, n) == bsum(t, n)
+    decreases n
+{ if n > 0 { lemma_bsum_prefix(s, t, n - 1); } }
+// value of one range-checked integer encoding: bits 0..n-2 weigh 2^i, the last one weighs last_weight
+pub open spec fn rc_val(s: Seq<Fe>, lw: Fe) -> int { if s.len() == 0 { 0 } else { bsum(s, s.len() - 1) + fe_v(s[s.len() - 1]) * fe_v(lw) } }
+pub open spec fn rc_ok(s: Seq<Fe>) -> bool { s.len() == 0 || ((s.len() - 1) < BITW() && (pow2((s.len() - 1) as nat) as int) <= P()) }
+''', 'truncate-prelude')
+    u.item(T, ['fn decode_range_checked_int'], ret='r',
+           rewrites=[(r'<F: FieldElementWithIntegerExt>', '', 1), (r'input: &\[F\]', 'input: &Vec<Fe>', 1), (r'last_weight: F,', 'last_weight: Fe,', 1),
+                     (r'Result<F, FieldError>', 'Result<Fe, FieldError>', 1),
+                     (r'let Some\(\(last, rest\)\) = input\.split_last\(\) else \{\s*return Ok\(F::zero\(\)\);\s*\};',
+                      'let (last, rest) = match vec_split_last(input) { Some(v) => v, None => { return Ok(fe_zero()); } };', 1),      # let-else == match (E4d)
+                     (r'F::decode_bitvector\(rest\)\?', 'decode_bitvector(&rest)?', 1), (r'\*last \* last_weight', 'last * last_weight', 1)],
+           sig='''
+ensures
+    r is Ok <==> rc_ok(input@),
+    r is Err ==> r == Err::<Fe, FieldError>(FieldError::BitVectorTooLong),
+    // linear in the input: sum_i input[i]*2^i over all but the last element, plus last * last_weight
+    r is Ok ==> cong(fe_v(r->Ok_0), rc_val(input@, last_weight)),
+''', before=[('return Ok(fe_zero())', 'lemma_cong_refl(0);'), ('Ok(decode_bitvector(&rest)? + last * last_weight)', '''
+    broadcast use axiom_fe_mk, axiom_fe_range;
+    lemma_cong_refl(0);
+    lemma_bsum_prefix(rest@, input@, rest@.len() as int);
+    assert forall|a: Fe, b: Fe, x: int| cong(fe_v(a), x) implies #[trigger] cong(fe_v(fe_mk(fe_v(a) + fe_v(b))), x + fe_v(b)) by { lemma_c0(b); lemma_add_c(a, b, x, fe_v(b)); }
+    assert(cong(fe_v(fe_mk(fe_v(last) * fe_v(last_weight))), fe_v(last) * fe_v(last_weight))) by { lemma_ops(last, last_weight); }
+    assert forall|a: Fe, b: Fe, x: int, y: int| cong(fe_v(a), x) && cong(fe_v(b), y) implies #[trigger] cong(fe_v(fe_mk(fe_v(a) + fe_v(b))), x + y) by { lemma_add_c(a, b, x, y); }
+''')])
+    for ty, hdr, ilen, extra in (('Sum', 'impl<F: NttFriendlyFieldElement> Type for Sum<F>', 'self.bits', []),
+                                 ('SumVec', 'impl<F, S> Type for SumVec<F, S>', 'self.flattened_len', [(r', S>', '>', 1), (r'phantom: PhantomData<S>,', '', 1)])):
+        u.struct_item(T, ['pub struct ' + ty], rewrites=[(r'<F: NttFriendlyFieldElement', '<', 1)] + extra + [(r'pub struct (\w+)<>', r'pub struct \1', 1), (r'F::Integer', 'u128', '*'), (r': F,', ': Fe,', '*'), (r'Vec<F>', 'Vec<Fe>', '*')])
+        u.raw('impl %s { fn input_len(&self) -> (r: usize) ensures r == %s { %s } }\n' % (ty, ilen, ilen), ty + '-input-len')
+        u.item('src/flp.rs', ['pub trait Flp', 'fn truncate_call_check'], ret='r', impl_header='impl ' + ty, name=ty + '_truncate_call_check',
+               rewrites=[(r'input: &\[Self::Field\]', 'input: &Vec<Fe>', 1), (r'format!\((?:[^()]|\([^()]*\))*\)', 'fmt_opaque()', '*')],
+               sig='ensures\n    r is Ok <==> input@.len() == %s,' % ilen)
+    u.raw('''
+pub open spec fn chunk_of(s: Seq<Fe>, n: int, k: int) -> Seq<Fe> { s.subrange(k * n, if (k + 1) * n <= s.len() { (k + 1) * n } else { s.len() as int }) }
+proof fn lemma_chunk_idx(len: int, n: int, k: int)
+    requires n > 0, len >= 0, 0 <= k < (len + n - 1) / n
+    ensures k * n < len, (k + 1) * n > k * n
+{
+    lemma_fundamental_div_mod(len + n - 1, n);
+    let q = (len + n - 1) / n;
+    lemma_mod_bound(len + n - 1, n);
+    assert(k * n < len) by (nonlinear_arith) requires len + n - 1 == n * q + (len + n - 1) % n, 0 <= (len + n - 1) % n < n, 0 <= k < q, n > 0;
+    assert((k + 1) * n > k * n) by (nonlinear_arith) requires n > 0;
+}
+''', 'chunks')
+    ERRC = (r'decode_range_checked_int\(([^;]*?)\)\?', r'(match decode_range_checked_int(\1) { Ok(v) => v, Err(e) => { return Err(FlpError::Field(e)); } })', 1)   # `?` with From<FieldError> == match (E4d)
+    u.item(T, ['impl<F: NttFriendlyFieldElement> Type for Sum<F>', 'fn truncate'], ret='r', impl_header='impl Sum', name='Sum_truncate',
+           rewrites=[(r'Vec<F>', 'Vec<Fe>', '*'), (r'self\.truncate_call_check\(', 'self.Sum_truncate_call_check(', 1), ERRC],
+           sig='''
+ensures
+    r is Ok <==> input@.len() == self.bits && rc_ok(input@),
+    // one output coordinate: the range-checked integer value of the whole input, a LINEAR function of it
+    r is Ok ==> r->Ok_0@.len() == 1 && cong(fe_v(r->Ok_0@[0]), rc_val(input@, self.last_weight_field)),
+''')
+    u.item(T, ['impl<F, S> Type for SumVec<F, S>', 'fn truncate'], ret='r', impl_header='impl SumVec', name='SumVec_truncate', attrs='#[verifier::loop_isolation(false)]',
+           rewrites=[(r'Vec<F>', 'Vec<Fe>', '*'), (r'self\.truncate_call_check\(', 'self.SumVec_truncate_call_check(', 1), ERRC,
+                     (r'for chunk in input\.chunks\(self\.bits\) \{', 'let nchunks_ = chunks_count(input.len(), self.bits); for k_ in 0..nchunks_ { let chunk = &chunk_at(&input, self.bits, k_);', 1)],   # E4i
+           sig='''
+requires
+    self.bits > 0,          // established by SumVec::new (unit flp_new)
+ensures
+    r is Ok <==> input@.len() == self.flattened_len && forall|j: int| 0 <= j < (input@.len() + self.bits - 1) / (self.bits as int) ==> rc_ok(#[trigger] chunk_of(input@, self.bits as int, j)),
+    // coordinate j is the range-checked integer value of the j-th chunk of `bits` elements: LINEAR, chunk by chunk, none skipped
+    r is Ok ==> r->Ok_0@.len() == (input@.len() + self.bits - 1) / (self.bits as int)
+        && forall|j: int| 0 <= j < r->Ok_0@.len() ==> cong(fe_v(#[trigger] r->Ok_0@[j]), rc_val(chunk_of(input@, self.bits as int, j), self.last_weight_field)),
+''', loops={0: '''
+invariant
+    unflattened@.len() == k_,
+    forall|j: int| 0 <= j < k_ ==> rc_ok(#[trigger] chunk_of(input@, self.bits as int, j)),
+    forall|j: int| 0 <= j < k_ ==> cong(fe_v(#[trigger] unflattened@[j]), rc_val(chunk_of(input@, self.bits as int, j), self.last_weight_field)),
+'''}, before=[('let chunk = &chunk_at(', 'lemma_chunk_idx(input@.len() as int, self.bits as int, k_ as int);'),
+                   ('unflattened.push(', 'assert(chunk@ == chunk_of(input@, self.bits as int, k_ as int));')])
     return u
